@@ -39,7 +39,7 @@ func (c20) Budget(tier string) core.Budget {
 	if tier == "thorough" {
 		return core.Budget{Runs: 400000, WallCap: 15 * time.Minute}
 	}
-	return core.Budget{Runs: 12000, WallCap: 40 * time.Second}
+	return core.Budget{Runs: 40000, WallCap: 40 * time.Second}
 }
 
 var c20Alphabets = []string{"ab", "abc", "ab\x00\xff"}
